@@ -37,7 +37,24 @@ pub struct TypeExpr {
     /// probe of an unsupported constructor as the outermost layer (notes only)
     #[serde(default, skip_serializing_if = "Option::is_none")]
     pub probe: Option<String>,
+    /// the field additionally carries `#[serde(skip)]`: serde never writes it, so neither the
+    /// field nor anything reachable only through it belongs in the registry. Here `expr` may also
+    /// contain `R` = `std::rc::Rc<_>`, a type that is not serialisable and that the generator has
+    /// no definition for (the usual reason a member is skipped)
+    #[serde(default, skip_serializing_if = "std::ops::Not::not")]
+    pub skipped: bool,
+    /// with `skipped`: every field of the struct carries `#[serde(skip)]` (types unchanged); the
+    /// struct is still a type serde knows, with no serialised fields
+    #[serde(default, skip_serializing_if = "std::ops::Not::not")]
+    pub all_fields: bool,
+    /// T is a NEW struct without fields added to the app crate, reachable only through this
+    /// field: `unit` = `struct Marker;`, `tuple-0` = `struct Marker();`, `braced-0` = `struct Marker {}`
+    #[serde(default, skip_serializing_if = "Option::is_none")]
+    pub fieldless: Option<String>,
 }
+
+pub const MARKER: &str = "Marker";
+pub const FIELDLESS: [&str; 3] = ["unit", "tuple-0", "braced-0"];
 
 #[derive(Serialize, Deserialize, Clone, Debug, PartialEq, Eq, PartialOrd, Ord)]
 pub struct Remote {
@@ -56,6 +73,7 @@ pub fn written(expr: &str, t: &str) -> String {
             'O' => format!("Option<{s}>"),
             'V' => format!("Vec<{s}>"),
             'P' => format!("({s}, u8)"),
+            'R' => format!("std::rc::Rc<{s}>"),
             _ => machinery_error("type-expr: unknown constructor"),
         };
     }
@@ -82,7 +100,8 @@ pub fn extra_ids(te: &TypeExpr, krate: &str) -> u32 {
     }
     let remote = te.remote.as_ref().map_or(0, |r| 1 + u32::from(r.also_plain));
     let probe = u32::from(matches!(te.probe.as_deref(), Some("box" | "hashmap" | "btreemap")));
-    remote + probe
+    let rc = te.expr.chars().filter(|c| *c == 'R').count() as u32;
+    remote + probe + rc + u32::from(te.fieldless.is_some())
 }
 
 fn std_path_id(c: &Crate, path: &[&str]) -> Option<Id> {
@@ -104,7 +123,7 @@ fn generic(path: &str, id: Id, args: Vec<Type>) -> Type {
     })
 }
 
-fn wrap(c: &Crate, expr: &str, inner: Type) -> Type {
+fn wrap(c: &Crate, expr: &str, inner: Type, next: &mut u32) -> Type {
     let option = std_path_id(c, &["core", "option", "Option"]).unwrap_or_else(|| machinery_error("type-expr: description does not know Option"));
     let vec = std_path_id(c, &["alloc", "vec", "Vec"]).unwrap_or_else(|| machinery_error("type-expr: description does not know Vec"));
     let mut t = inner;
@@ -113,6 +132,13 @@ fn wrap(c: &Crate, expr: &str, inner: Type) -> Type {
             'O' => generic("Option", option, vec![t]),
             'V' => generic("Vec", vec, vec![t]),
             'P' => Type::Tuple(vec![t, Type::Primitive("u8".into())]),
+            'R' => {
+                // as in real rustdoc output for a type of a crate the description has no path
+                // entry for: an id nothing else mentions, so no crate is requested on its behalf
+                let id = Id(*next);
+                *next += 1;
+                generic("std::rc::Rc", id, vec![t])
+            }
             _ => machinery_error("type-expr: unknown constructor"),
         };
     }
@@ -149,6 +175,41 @@ pub fn apply(c: &mut Crate, te: &TypeExpr, base_max: u32) {
     };
     let mut next = base_max + 1;
     let inner = match &te.remote {
+        None if te.fieldless.is_some() => {
+            // a new local struct without fields, as rustdoc describes one
+            let id = Id(next);
+            next += 1;
+            let kind = match te.fieldless.as_deref() {
+                Some("unit") => StructKind::Unit,
+                Some("tuple-0") => StructKind::Tuple(vec![]),
+                _ => StructKind::Plain { fields: vec![], has_stripped_fields: false },
+            };
+            c.index.insert(
+                id,
+                Item {
+                    id,
+                    crate_id: 0,
+                    name: Some(MARKER.to_string()),
+                    span: None,
+                    visibility: rustdoc_types::Visibility::Public,
+                    docs: None,
+                    links: Default::default(),
+                    attrs: vec![],
+                    deprecation: None,
+                    inner: ItemEnum::Struct(rustdoc_types::Struct {
+                        kind,
+                        generics: rustdoc_types::Generics { params: vec![], where_predicates: vec![] },
+                        impls: vec![],
+                    }),
+                },
+            );
+            let root_path = c.paths.get(&c.root).map(|s| s.path.clone()).unwrap_or_default();
+            c.paths.insert(
+                id,
+                ItemSummary { crate_id: 0, path: root_path.into_iter().chain(std::iter::once(MARKER.to_string())).collect(), kind: rustdoc_types::ItemKind::Struct },
+            );
+            generic(MARKER, id, vec![])
+        }
         None => current,
         Some(r) => {
             let t = remote_type(c, &r.krate, Id(next));
@@ -162,7 +223,19 @@ pub fn apply(c: &mut Crate, te: &TypeExpr, base_max: u32) {
             t
         }
     };
-    let mut t = wrap(c, &te.expr, inner);
+    let mut t = wrap(c, &te.expr, inner, &mut next);
+    if te.skipped && te.all_fields {
+        let holder = c.index.get(&Id(te.variant.unwrap_or(te.container))).expect("holder").clone();
+        for f in field_ids_of(&holder) {
+            if let Some(i) = c.index.get_mut(&f) {
+                i.attrs.push("#[serde(skip)]".to_string());
+            }
+        }
+        return; // types unchanged
+    }
+    if te.skipped {
+        c.index.get_mut(&Id(te.field)).expect("field").attrs.push("#[serde(skip)]".to_string());
+    }
     if let Some(p) = &te.probe {
         let string = c.index.values().find_map(|i| match &i.inner {
             ItemEnum::StructField(t @ Type::ResolvedPath(p)) if p.path == "String" => Some(t.clone()),
@@ -291,6 +364,8 @@ fn positions(fx: &Fixtures, d: &str, b: &RunOut) -> Vec<Position> {
 
 pub struct Expected {
     pub registry: Value,
+    /// further acceptable registries (a struct without fields in its other wire-equivalent style)
+    pub alternatives: Vec<Value>,
     pub container_name: String,
     pub t_name: String,
     /// T and everything below it in the unperturbed registry
@@ -319,6 +394,7 @@ pub fn expected(fx: &Fixtures, base: &BTreeMap<String, RunOut>, te: &TypeExpr) -
     let container_name = reference::container_name(c.index.get(&loc.container)?)?;
     let mut registry = b.registry.clone();
     let (t_name, must_load, flavour) = match &te.remote {
+        None if te.fieldless.is_some() => (MARKER.to_string(), None, "fieldless-struct-as-field-type"),
         None => {
             let ItemEnum::StructField(Type::ResolvedPath(p)) = &c.index.get(&loc.field)?.inner else { return None };
             (reference::container_name(c.index.get(&p.id)?)?, None, "local")
@@ -338,11 +414,48 @@ pub fn expected(fx: &Fixtures, base: &BTreeMap<String, RunOut>, te: &TypeExpr) -
         }
     };
     depgraph::patch(&mut registry, c, &loc, rendered(&te.expr, &t_name))?;
+    let mut alternatives = vec![];
+    if let Some(kind) = &te.fieldless {
+        // serde's own style first (measured), then the wire-equivalent one
+        let serde_style = serde_fieldless(kind);
+        for style in [serde_style, json!("UNITSTRUCT")] {
+            let mut r = registry.clone();
+            r[MARKER] = style;
+            if !alternatives.contains(&r) {
+                alternatives.push(r);
+            }
+        }
+        registry = alternatives.remove(0);
+    }
     let subtree = subtree_of(&registry, &t_name);
-    Some(Expected { registry, container_name, t_name, subtree, must_load, flavour })
+    Some(Expected { registry, alternatives, container_name, t_name, subtree, must_load, flavour })
 }
 
 pub fn judge(x: &Expected, observed: &Value, loaded: &[String]) -> Vec<(String, String)> {
+    if x.alternatives.iter().any(|r| r == observed) {
+        return vec![];
+    }
+    let minus_t = |r: &Value| {
+        let mut r = r.clone();
+        if let Some(m) = r.as_object_mut() {
+            m.remove(&x.t_name);
+        }
+        r
+    };
+    // exactly: the fieldless struct's own entry is the one and only thing missing
+    if x.flavour == "fieldless-struct-as-field-type" && std::iter::once(&x.registry).chain(x.alternatives.iter()).any(|r| minus_t(r) == *observed) {
+        // the K10 defect class seen from another input: reported once, with its consequence
+        let open = closedness(observed);
+        return vec![(
+            "container-missing".into(),
+            format!(
+                "the struct {} has no fields but is a type serde knows ({}): it must have an entry, yet it has none{}",
+                x.t_name,
+                x.registry[&x.t_name],
+                if open.is_empty() { String::new() } else { format!("; consequently the registry is not closed: {}", open.iter().map(|(c, m)| format!("{c} references {m}, which has no entry")).collect::<Vec<_>>().join("; ")) }
+            ),
+        )];
+    }
     let mut out = vec![];
     let open = closedness(observed);
     if let Some(k) = &x.must_load {
@@ -387,10 +500,239 @@ pub fn judge(x: &Expected, observed: &Value, loaded: &[String]) -> Vec<(String, 
     out
 }
 
+// -------------------------------------------------------------------------------------------
+// skipped fields
+
+pub struct ExpectedSkipped {
+    /// acceptable registries: they differ only in the style of a container / variant that is
+    /// left without serialised fields (UNITSTRUCT vs STRUCT [] ...: identical bytes; the first
+    /// is what serde-reflection traces)
+    pub registries: Vec<Value>,
+    pub container_name: String,
+    pub field_name: String,
+    pub t_name: String,
+    /// entries that must not be in the registry any more
+    pub gone: BTreeSet<String>,
+    pub must_not_load: Option<String>,
+    pub flavour: &'static str,
+    /// the altered container is a struct and the alteration leaves it without any serialised field
+    pub every_field_skipped: bool,
+}
+
+/// Key (below `type-expr/`) of known finding K10. Assigned ONLY when the altered struct has every
+/// field `#[serde(skip)]` AND the observation is exactly the expected registry without that
+/// struct's own entry (the dangling references follow from it). Anything else - a struct with a
+/// live field whose entry is missing, an all-skipped struct with a wrong entry, extra or changed
+/// entries, a crate loaded for a skipped field - gets the ordinary `<flavour>/<class>` keys.
+pub const K10_TAIL: &str = "struct-without-serialised-fields/container-missing";
+
+/// The entry of the container without the field, in every wire-equivalent style.
+fn without_field(entry: &Value, c: &Crate, loc: &depgraph::Located) -> Option<Vec<Value>> {
+    let container = c.index.get(&loc.container)?;
+    let live_pos = |holder: &Item| {
+        field_ids_of(holder)
+            .iter()
+            .filter(|id| c.index.get(id).is_some_and(|i| !reference::serde_attrs(i).skip))
+            .position(|id| *id == loc.field)
+    };
+    let drop_at = |list: &Value, pos: usize| -> Option<Vec<Value>> {
+        let mut v = list.as_array()?.clone();
+        (pos < v.len()).then(|| v.remove(pos))?;
+        Some(v)
+    };
+    match loc.variant {
+        None => {
+            let pos = live_pos(container)?;
+            if let Some(fs) = entry.get("STRUCT") {
+                let rest = drop_at(fs, pos)?;
+                Some(if rest.is_empty() { vec![json!({"STRUCT": []}), json!("UNITSTRUCT")] } else { vec![json!({ "STRUCT": rest })] })
+            } else if entry.get("NEWTYPESTRUCT").is_some() {
+                Some(vec![json!({"TUPLESTRUCT": []}), json!("UNITSTRUCT")])
+            } else {
+                let rest = drop_at(entry.get("TUPLESTRUCT")?, pos)?;
+                Some(match rest.len() {
+                    0 => vec![json!({"TUPLESTRUCT": []}), json!("UNITSTRUCT")],
+                    1 => vec![json!({ "TUPLESTRUCT": rest }), json!({"NEWTYPESTRUCT": rest[0]})],
+                    _ => vec![json!({ "TUPLESTRUCT": rest })],
+                })
+            }
+        }
+        Some(vid) => {
+            let ItemEnum::Enum(e) = &container.inner else { return None };
+            let vpos = e
+                .variants
+                .iter()
+                .filter(|id| c.index.get(id).is_some_and(|i| !reference::serde_attrs(i).skip))
+                .position(|id| *id == vid)?;
+            let pos = live_pos(c.index.get(&vid)?)?;
+            let named = entry.get("ENUM")?.get(vpos.to_string())?.as_object()?;
+            let (vname, f) = named.iter().next()?;
+            let styles: Vec<Value> = if let Some(fs) = f.get("STRUCT") {
+                vec![json!({ "STRUCT": drop_at(fs, pos)? })]
+            } else if f.get("NEWTYPE").is_some() {
+                vec![json!("UNIT")] // measured: serde reads and writes such a variant as a unit variant
+            } else {
+                let rest = drop_at(f.get("TUPLE")?, pos)?;
+                match rest.len() {
+                    0 => vec![json!({"TUPLE": []}), json!("UNIT")],
+                    1 => vec![json!({ "TUPLE": rest }), json!({"NEWTYPE": rest[0]})],
+                    _ => vec![json!({ "TUPLE": rest })],
+                }
+            };
+            Some(
+                styles
+                    .into_iter()
+                    .map(|st| {
+                        let mut e2 = entry.clone();
+                        let mut n = serde_json::Map::new();
+                        n.insert(vname.clone(), st);
+                        e2["ENUM"][vpos.to_string()] = Value::Object(n);
+                        e2
+                    })
+                    .collect(),
+            )
+        }
+    }
+}
+
+pub fn expected_skipped(fx: &Fixtures, base: &BTreeMap<String, RunOut>, te: &TypeExpr) -> Option<ExpectedSkipped> {
+    let b = base.get(&te.krate)?;
+    let c = fx.crates.get(&te.krate)?;
+    let loc = depgraph::Located { container: Id(te.container), variant: te.variant.map(Id), field: Id(te.field) };
+    let container_name = reference::container_name(c.index.get(&loc.container)?)?;
+    let field_name = c.index.get(&loc.field)?.name.clone()?;
+    let styles = if te.all_fields {
+        let e = b.registry.get(&container_name)?;
+        if e.get("STRUCT").is_some() {
+            vec![json!({"STRUCT": []}), json!("UNITSTRUCT")]
+        } else {
+            vec![json!({"TUPLESTRUCT": []}), json!("UNITSTRUCT")]
+        }
+    } else {
+        without_field(b.registry.get(&container_name)?, c, &loc)?
+    };
+    let (t_name, must_not_load, flavour, below) = match &te.remote {
+        None if te.all_fields => {
+            let mut refs = vec![];
+            reference::referenced_type_names(b.registry.get(&container_name)?, &mut refs);
+            let below = refs.iter().flat_map(|r| subtree_of(&b.registry, r)).collect();
+            (container_name.clone(), None, "skipped-all-fields", below)
+        }
+        None => {
+            let ItemEnum::StructField(Type::ResolvedPath(p)) = &c.index.get(&loc.field)?.inner else { return None };
+            let t = reference::container_name(c.index.get(&p.id)?)?;
+            let below = subtree_of(&b.registry, &t);
+            (t, None, "skipped-local", below)
+        }
+        Some(r) => (depgraph::export_name(&r.krate), Some(r.krate.clone()), "skipped-remote", BTreeSet::new()),
+    };
+    // what stays: everything that is not below T, the filter's own roots, and whatever those
+    // still refer to once the field is gone
+    let root_names: BTreeSet<String> =
+        root_types(c).iter().filter_map(|id| c.index.get(&Id(*id))).filter_map(reference::container_name).collect();
+    let mut registries = vec![];
+    let mut gone = BTreeSet::new();
+    for st in styles {
+        let mut reg = b.registry.clone();
+        reg[&container_name] = st;
+        let all = reg.as_object()?.clone();
+        let mut keep: BTreeSet<String> = all.keys().filter(|n| !below.contains(*n) || root_names.contains(*n)).cloned().collect();
+        let mut todo: Vec<String> = keep.iter().cloned().collect();
+        while let Some(n) = todo.pop() {
+            let mut refs = vec![];
+            if let Some(e) = all.get(&n) {
+                reference::referenced_type_names(e, &mut refs);
+            }
+            for r in refs {
+                if all.contains_key(&r) && keep.insert(r.clone()) {
+                    todo.push(r);
+                }
+            }
+        }
+        gone = all.keys().filter(|n| !keep.contains(*n)).cloned().collect();
+        registries.push(Value::Object(all.into_iter().filter(|(n, _)| keep.contains(n)).collect()));
+    }
+    let container = c.index.get(&loc.container)?;
+    let every_field_skipped = matches!(container.inner, ItemEnum::Struct(_))
+        && te.variant.is_none()
+        && (te.all_fields || {
+            let live: Vec<Id> =
+                field_ids_of(container).into_iter().filter(|id| c.index.get(id).is_some_and(|i| !reference::serde_attrs(i).skip)).collect();
+            live == vec![loc.field]
+        });
+    Some(ExpectedSkipped { registries, container_name, field_name, t_name, gone, must_not_load, flavour, every_field_skipped })
+}
+
+/// `(key below type-expr/, explanation)`.
+pub fn judge_skipped(x: &ExpectedSkipped, observed: &Value, loaded: &[String]) -> Vec<(String, String)> {
+    let crate_ok = x.must_not_load.as_ref().is_none_or(|k| !loaded.contains(k));
+    if x.registries.iter().any(|r| r == observed) && crate_ok {
+        return vec![];
+    }
+    let without_container = |r: &Value| {
+        let mut r = r.clone();
+        if let Some(m) = r.as_object_mut() {
+            m.remove(&x.container_name);
+        }
+        r
+    };
+    if x.every_field_skipped && crate_ok && x.registries.iter().any(|r| without_container(r) == *observed) {
+        // K10, exactly: the struct's own entry is the one and only thing missing
+        let open = closedness(observed);
+        return vec![(
+            K10_TAIL.into(),
+            format!(
+                "{} is left without serialised fields but is still a type serde knows (serde-reflection traces a struct with no fields): its entry must stay, as STRUCT [] / UNITSTRUCT, yet it is gone (nothing else differs){}",
+                x.container_name,
+                if open.is_empty() { String::new() } else { format!("; consequently the registry is not closed: {}", open.iter().map(|(c, m)| format!("{c} references {m}, which has no entry")).collect::<Vec<_>>().join("; ")) }
+            ),
+        )];
+    }
+    let mut out: Vec<(String, String)> = vec![];
+    if let Some(k) = x.must_not_load.as_ref().filter(|k| loaded.contains(*k)) {
+        out.push(("crate-loaded-for-skipped-field".into(), format!("crate {k} was loaded although its only mention is the type of a field serde never writes (loaded: {loaded:?})")));
+    }
+    let exp = &x.registries[0];
+    let (eo, oo) = (exp.as_object().unwrap(), observed.as_object().unwrap());
+    let present: Vec<&String> = x.gone.iter().filter(|n| oo.contains_key(*n)).collect();
+    if !present.is_empty() {
+        out.push((
+            "skipped-subtree-present".into(),
+            format!("{} is reachable only through the skipped field, yet {present:?} are in the registry", x.t_name),
+        ));
+    }
+    match oo.get(&x.container_name) {
+        Some(o) if x.registries.iter().any(|r| r.get(&x.container_name) == Some(o)) => {}
+        Some(o) => out.push(("container-entry".into(), format!("entry {} must simply lack the field {}: expected {}, observed {o}", x.container_name, x.field_name, exp[&x.container_name]))),
+        None => out.push(("container-missing".into(), format!("entry {} is gone (and that is not the only difference, or the struct still has serialised fields)", x.container_name))),
+    }
+    let open = closedness(observed);
+    if !open.is_empty() {
+        out.push(("not-closed".into(), format!("registry is not closed: {}", open.iter().map(|(c, m)| format!("{c} references {m}, which has no entry")).collect::<Vec<_>>().join("; "))));
+    }
+    for (n, e) in eo {
+        if *n == x.container_name {
+            continue;
+        }
+        match oo.get(n) {
+            Some(o) if o == e => {}
+            Some(o) => out.push(("other-entry-changed".into(), format!("entry {n} changed from {e} to {o}"))),
+            None => out.push(("entry-missing".into(), format!("entry {n} disappeared although it does not depend on the skipped field"))),
+        }
+    }
+    for n in oo.keys() {
+        if !eo.contains_key(n) && !x.gone.contains(n) {
+            out.push(("entry-extra".into(), format!("new entry {n}")));
+        }
+    }
+    out.into_iter().map(|(class, what)| (format!("{}/{class}", x.flavour), what)).collect()
+}
+
 pub fn describe(fx: &Fixtures, te: &TypeExpr) -> String {
     let c = fx.crates.get(&te.krate);
     let name = |id: u32| c.and_then(|c| c.index.get(&Id(id))).and_then(|i| i.name.clone()).unwrap_or_default();
     let t = match &te.remote {
+        None if te.fieldless.is_some() => MARKER.to_string(),
         Some(r) => depgraph::export(&r.krate).map(|e| e.path.join("::")).unwrap_or_default(),
         None => c
             .and_then(|c| c.index.get(&Id(te.field)))
@@ -408,6 +750,20 @@ pub fn describe(fx: &Fixtures, te: &TypeExpr) -> String {
             "hashmap" => format!("HashMap<String, {ty}>"),
             _ => format!("BTreeMap<String, {ty}>"),
         };
+    }
+    if te.skipped && te.all_fields {
+        return format!("every field of struct {}::{} marked `#[serde(skip)]`", te.krate, name(te.container));
+    }
+    if te.skipped {
+        ty = format!("{ty}` and marked `#[serde(skip)]");
+    }
+    if let Some(k) = &te.fieldless {
+        let decl = match k.as_str() {
+            "unit" => "struct Marker;",
+            "tuple-0" => "struct Marker();",
+            _ => "struct Marker {}",
+        };
+        ty = format!("{ty}` with the new `{decl}");
     }
     format!(
         "field {}::{}{}.{} given the type `{ty}`{}",
@@ -450,6 +806,128 @@ fn expressions(tier: Tier) -> Vec<String> {
     }
 }
 
+#[allow(dead_code)]
+#[derive(Serialize, Deserialize)]
+struct AllSkippedProbe {
+    #[serde(skip)]
+    a: u32,
+}
+
+/// What serde-reflection traces for a struct all of whose fields are skipped (measured).
+fn serde_all_skipped() -> Value {
+    use serde_reflection::{Tracer, TracerConfig};
+    let mut t = Tracer::new(TracerConfig::default());
+    if let Err(e) = t.trace_simple_type::<AllSkippedProbe>() {
+        return json!(format!("does not trace: {e}"));
+    }
+    t.registry().ok().and_then(|r| serde_json::to_value(r).ok()).map_or(Value::Null, |r| r["AllSkippedProbe"].clone())
+}
+
+#[derive(Serialize, Deserialize)]
+struct UnitProbe;
+#[derive(Serialize, Deserialize)]
+struct Tuple0Probe();
+#[derive(Serialize, Deserialize)]
+struct Braced0Probe {}
+
+/// What serde-reflection traces for a struct without fields of the given kind (measured).
+pub fn serde_fieldless(kind: &str) -> Value {
+    use serde_reflection::{Tracer, TracerConfig};
+    let mut t = Tracer::new(TracerConfig::default());
+    let (r, name) = match kind {
+        "unit" => (t.trace_simple_type::<UnitProbe>().map(|_| ()), "UnitProbe"),
+        "tuple-0" => (t.trace_simple_type::<Tuple0Probe>().map(|_| ()), "Tuple0Probe"),
+        _ => (t.trace_simple_type::<Braced0Probe>().map(|_| ()), "Braced0Probe"),
+    };
+    if let Err(e) = r {
+        machinery_error(&format!("type-expr: fieldless probe {kind} does not trace: {e}"));
+    }
+    t.registry().ok().and_then(|r| serde_json::to_value(r).ok()).map_or(Value::Null, |r| r[name].clone())
+}
+
+/// The key of known finding K10 must be as narrow as the finding: synthetic observations one step
+/// away from it must come out under other (unlisted) keys.
+pub fn canary(fx: &Fixtures, base: &BTreeMap<String, RunOut>) {
+    let root = depgraph::ROOT;
+    let (Some(c), Some(b)) = (fx.crates.get(root), base.get(root)) else { return };
+    let receipt = depgraph::locate(c, root, &depgraph::slots(root)[2]); // Receipt.email
+    let mk = |all_fields: bool, expr: &str, remote: Option<Remote>| TypeExpr {
+        krate: root.to_string(),
+        container: receipt.container.0,
+        variant: None,
+        field: receipt.field.0,
+        expr: expr.to_string(),
+        remote,
+        probe: None,
+        skipped: true,
+        all_fields,
+        fieldless: None,
+    };
+    let fail = |what: &str| -> ! { machinery_error(&format!("canary (K10 key narrowness): {what}")) };
+    let name = "Receipt".to_string();
+    let keys = |x: &ExpectedSkipped, obs: &Value, loaded: &[String]| -> Vec<String> { judge_skipped(x, obs, loaded).into_iter().map(|(k, _)| k).collect() };
+    let Some(all) = expected_skipped(fx, base, &mk(true, "", None)) else { fail("expectation for the all-skipped struct not derivable") };
+    let mut k10 = all.registries[0].clone();
+    k10.as_object_mut().unwrap().remove(&name);
+    // 0. the finding itself
+    if keys(&all, &k10, &b.loaded) != vec![K10_TAIL.to_string()] {
+        fail("the exact K10 observation is not keyed as K10");
+    }
+    let must_be_unlisted = |what: &str, ks: Vec<String>| {
+        if ks.is_empty() || ks.iter().any(|k| k == K10_TAIL) {
+            fail(&format!("{what}: keys {ks:?}"));
+        }
+    };
+    // 1. K10 plus an extra entry
+    let mut o = k10.clone();
+    o["Bogus"] = json!("UNITSTRUCT");
+    must_be_unlisted("K10 observation plus an extra entry must not be K10", keys(&all, &o, &b.loaded));
+    // 2. K10 plus another entry changed
+    let mut o = k10.clone();
+    o["Payment"] = json!("UNITSTRUCT");
+    must_be_unlisted("K10 observation plus a changed entry must not be K10", keys(&all, &o, &b.loaded));
+    // 3. K10 plus another entry missing
+    let mut o = k10.clone();
+    o.as_object_mut().unwrap().remove("Payment");
+    must_be_unlisted("K10 observation plus another missing entry must not be K10", keys(&all, &o, &b.loaded));
+    // 4. the all-skipped struct is present but with a wrong entry (its unperturbed one)
+    let mut o = all.registries[0].clone();
+    o[&name] = b.registry[&name].clone();
+    must_be_unlisted("an all-skipped struct with a wrong entry must not be K10", keys(&all, &o, &b.loaded));
+    // 5. a struct that still has a serialised field, whose entry is missing
+    let status = depgraph::locate(c, root, &depgraph::Slot { container: "Receipt", variant: None, field: "status" });
+    let Some(one) = expected_skipped(fx, base, &TypeExpr { field: status.field.0, ..mk(false, "", None) }) else {
+        fail("expectation for one skipped field not derivable")
+    };
+    if one.every_field_skipped {
+        fail("Receipt with only `status` skipped still has a serialised field");
+    }
+    let mut o = one.registries[0].clone();
+    o.as_object_mut().unwrap().remove(&name);
+    must_be_unlisted("a struct with a live field whose entry is missing must not be K10", keys(&one, &o, &b.loaded));
+    // 5b. the sibling key for a fieldless struct used as a field type is equally narrow
+    let fl = TypeExpr { skipped: false, fieldless: Some("unit".into()), ..mk(false, "", None) };
+    let Some(x) = expected(fx, base, &fl) else { fail("expectation for the fieldless struct not derivable") };
+    let mut o = x.registry.clone();
+    o.as_object_mut().unwrap().remove(MARKER);
+    let ks: Vec<String> = judge(&x, &o, &b.loaded).into_iter().map(|(k, _)| k).collect();
+    if ks != vec!["container-missing".to_string()] {
+        fail(&format!("the exact fieldless-struct observation is not keyed container-missing: {ks:?}"));
+    }
+    o["Bogus"] = json!("UNITSTRUCT");
+    let ks: Vec<String> = judge(&x, &o, &b.loaded).into_iter().map(|(k, _)| k).collect();
+    if ks.is_empty() || ks.iter().any(|k| k == "container-missing") {
+        fail(&format!("fieldless-struct observation plus an extra entry must not be keyed container-missing: {ks:?}"));
+    }
+    // 6. a crate loaded for a skipped field
+    let Some(rem) = expected_skipped(fx, base, &mk(false, "", Some(Remote { krate: "crux_time".into(), also_plain: false }))) else {
+        fail("expectation for the skipped remote field not derivable")
+    };
+    let mut loaded = b.loaded.clone();
+    loaded.push("crux_time".into());
+    must_be_unlisted("a crate loaded for a skipped field must not be K10", keys(&rem, &rem.registries[0], &loaded));
+}
+
 pub struct Stats {
     pub runs: u64,
     pub compared: u64,
@@ -470,6 +948,7 @@ pub fn run_dimension(
     if EXAMPLES.iter().any(|d| !base.contains_key(*d)) {
         return None; // development filter
     }
+    canary(fx, base);
     let exprs = expressions(tier);
     // local positions
     let mut per_description: BTreeMap<String, Vec<Position>> = BTreeMap::new();
@@ -500,7 +979,7 @@ pub fn run_dimension(
         for p in &per_description[*d] {
             local_positions.push(json!({"field": format!("{}#{}", p.krate, p.field), "type": p.t_name, "field_is_the_only_route_to_it": p.only_route}));
             for e in &exprs {
-                let te = TypeExpr { krate: p.krate.clone(), container: p.container, variant: p.variant, field: p.field, expr: e.clone(), remote: None, probe: None };
+                let te = TypeExpr { krate: p.krate.clone(), container: p.container, variant: p.variant, field: p.field, expr: e.clone(), remote: None, probe: None, skipped: false, all_fields: false, fieldless: None };
                 cases.push(case(d, &deps, &te, Renumber::Identity));
                 cases.push(case(d, &deps, &te, Renumber::Reverse { crates: vec![d.to_string()] }));
             }
@@ -525,6 +1004,9 @@ pub fn run_dimension(
                         expr: e.clone(),
                         remote: Some(Remote { krate: k.to_string(), also_plain }),
                         probe: None,
+                        skipped: false,
+                        all_fields: false,
+                        fieldless: None,
                     };
                     cases.push(case(root, &rdeps, &te, Renumber::Identity));
                     if tier == Tier::Thorough || e.len() <= 1 {
@@ -534,11 +1016,90 @@ pub fn run_dimension(
             }
         }
     }
+    // skipped fields: every position that is the only route to its T, and the remote T as the
+    // app's only reference to its crate
+    let skip_forms = ["", "O", "V", "R"];
+    let mut skipped_positions = 0u64;
+    for d in &chosen {
+        let mut deps = base[*d].loaded[1..].to_vec();
+        deps.sort();
+        for p in per_description[*d].iter().filter(|p| p.only_route) {
+            skipped_positions += 1;
+            for e in skip_forms {
+                let te = TypeExpr { krate: p.krate.clone(), container: p.container, variant: p.variant, field: p.field, expr: e.to_string(), remote: None, probe: None, skipped: true, all_fields: false, fieldless: None };
+                cases.push(case(d, &deps, &te, Renumber::Identity));
+                cases.push(case(d, &deps, &te, Renumber::Reverse { crates: vec![d.to_string()] }));
+            }
+        }
+    }
+    // a struct all of whose fields are skipped
+    let mut all_skipped_structs = 0u64;
+    for d in &chosen {
+        let c = &fx.crates[*d];
+        let mut deps = base[*d].loaded[1..].to_vec();
+        deps.sort();
+        let sources: BTreeSet<u32> = base[*d].edges.iter().filter(|(s, _)| s.0 == *d).map(|(s, _)| s.1).collect();
+        for id in sources {
+            let Some(item) = c.index.get(&Id(id)) else { continue };
+            if !matches!(item.inner, ItemEnum::Struct(_)) || !reference::serde_attrs(item).unmodelled.is_empty() {
+                continue;
+            }
+            let Some(first) = field_ids_of(item).first().copied() else { continue };
+            all_skipped_structs += 1;
+            let te = TypeExpr { krate: d.to_string(), container: id, variant: None, field: first.0, expr: String::new(), remote: None, probe: None, skipped: true, all_fields: true, fieldless: None };
+            cases.push(case(d, &deps, &te, Renumber::Identity));
+            cases.push(case(d, &deps, &te, Renumber::Reverse { crates: vec![d.to_string()] }));
+        }
+    }
+    // T = a new struct without fields (not a root), as a struct field and as a variant payload
+    let payload = depgraph::locate(rc, root, &depgraph::Slot { container: "PaymentStatus", variant: Some("Failed"), field: "0" });
+    if has_std_containers(rc) {
+        for kind in FIELDLESS {
+            for pos in [&slot, &payload] {
+                for e in ["", "O", "V"] {
+                    let te = TypeExpr {
+                        krate: root.to_string(),
+                        container: pos.container.0,
+                        variant: pos.variant.map(|v| v.0),
+                        field: pos.field.0,
+                        expr: e.to_string(),
+                        remote: None,
+                        probe: None,
+                        skipped: false,
+                        all_fields: false,
+                        fieldless: Some(kind.to_string()),
+                    };
+                    cases.push(case(root, &rdeps, &te, Renumber::Identity));
+                    cases.push(case(root, &rdeps, &te, Renumber::Reverse { crates: vec![root.to_string()] }));
+                }
+            }
+        }
+    }
+    if has_std_containers(rc) {
+        for k in &remotes {
+            for e in skip_forms {
+                let te = TypeExpr {
+                    krate: root.to_string(),
+                    container: slot.container.0,
+                    variant: slot.variant.map(|v| v.0),
+                    field: slot.field.0,
+                    expr: e.to_string(),
+                    remote: Some(Remote { krate: k.to_string(), also_plain: false }),
+                    probe: None,
+                    skipped: true,
+                    all_fields: false,
+                    fieldless: None,
+                };
+                cases.push(case(root, &rdeps, &te, Renumber::Identity));
+                cases.push(case(root, &rdeps, &te, Renumber::Reverse { crates: vec![root.to_string()] }));
+            }
+        }
+    }
     // probes of unsupported constructors, on the first local position of the root
     let mut probe_cases: Vec<Case> = vec![];
     if let Some(p) = per_description.get(root).and_then(|v| v.first()) {
         for probe in PROBES {
-            let te = TypeExpr { krate: p.krate.clone(), container: p.container, variant: p.variant, field: p.field, expr: String::new(), remote: None, probe: Some(probe.to_string()) };
+            let te = TypeExpr { krate: p.krate.clone(), container: p.container, variant: p.variant, field: p.field, expr: String::new(), remote: None, probe: Some(probe.to_string()), skipped: false, all_fields: false, fieldless: None };
             probe_cases.push(case(root, &rdeps, &te, Renumber::Identity));
         }
     }
@@ -577,13 +1138,60 @@ pub fn run_dimension(
             probe_notes.insert(p.clone(), json!({"altered": describe(fx, te), "observed": outcome}));
             continue;
         }
+        if te.skipped {
+            let Some(x) = expected_skipped(fx, base, te) else {
+                machinery_error(&format!("type-expr: expectation not derivable for {}", describe(fx, te)));
+            };
+            let fl = by_flavour.entry(x.flavour).or_insert((0, 0));
+            fl.0 += 1;
+            let size = te.expr.len() * 4 + usize::from(c.renumber != Renumber::Identity) + base[&c.description].loaded.len();
+            let report = |class: &str, what: String, extra: Value| {
+                reporter.violation(Violation {
+                    key: format!("type-expr/{class}"),
+                    what: format!("{}: {what}; run: {}", describe(fx, te), describe_case(fx, c)),
+                    replay: json!({"case": c, "details": extra}),
+                    size,
+                });
+            };
+            match r {
+                RunResult::Ok(o) => {
+                    times.push(o.ms);
+                    st.compared += 1;
+                    st.evaluations += 1;
+                    let mark = fnv64(serde_json::to_string(te).unwrap().as_bytes());
+                    st.states.insert((c.description.clone(), o.fingerprint ^ mark));
+                    samples.offer(|| json!({"case": c, "altered": describe(fx, te), "registry_hash": format!("{:016x}", o.registry_hash)}));
+                    let findings = judge_skipped(&x, &o.registry, &o.loaded);
+                    if findings.is_empty() {
+                        fl.1 += 1;
+                    }
+                    for (class, what) in findings {
+                        report(&class, what, json!({"expected_entry": x.registries[0].get(&x.container_name), "observed_entry": o.registry.get(&x.container_name), "must_be_absent": x.gone, "loaded": o.loaded}));
+                    }
+                }
+                RunResult::Err(e) => {
+                    st.evaluations += 1;
+                    let key: String = e.chars().take(40).map(|c| if c.is_ascii_alphanumeric() { c.to_ascii_lowercase() } else { '-' }).collect();
+                    report(&format!("run-error/{}", key.trim_matches('-')), format!("codegen fails although the only unusual member is one serde never writes: {e}"), json!({"error": e}));
+                }
+                RunResult::Panic(p) => {
+                    st.evaluations += 1;
+                    report(&p.key(), format!("codegen panics at {}:{} ({}) although the only unusual member is one serde never writes", p.file, p.line, p.message), json!({"panic": p.message}));
+                }
+            }
+            continue;
+        }
         *by_depth.entry(te.expr.len()).or_insert(0) += 1;
         let Some(x) = expected(fx, base, te) else {
             machinery_error(&format!("type-expr: expectation not derivable for {}", describe(fx, te)));
         };
         let fl = by_flavour.entry(x.flavour).or_insert((0, 0));
         fl.0 += 1;
-        let size = te.expr.len() * 4 + usize::from(c.renumber != Renumber::Identity) + base[&c.description].loaded.len();
+        let size = te.expr.len() * 4
+            + usize::from(c.renumber != Renumber::Identity)
+            + base[&c.description].loaded.len()
+            + te.fieldless.as_deref().map_or(0, |k| FIELDLESS.iter().position(|x| *x == k).unwrap_or(0))
+            + usize::from(te.variant.is_some());
         let report = |class: &str, what: String, extra: Value| {
             reporter.violation(Violation {
                 key: format!("type-expr/{}/{class}", x.flavour),
@@ -626,6 +1234,18 @@ pub fn run_dimension(
         "constructors_supported_by_the_parser_today": "Option<_> -> OPTION, Vec<_> -> SEQ, tuples -> TUPLE; leaves: named types, String, primitives",
         "constructors_left_out": "arrays, slices, Box<_>, HashMap<_, _>, BTreeMap<_, _> and every other generic path: not supported by the formatter today; probed once per run, behaviour recorded below as a note (an explicit refusal is not a finding)",
         "unsupported_constructor_probes": probe_notes,
+        "skipped_fields": {
+            "bound": format!("every position that is the only route to its T ({skipped_positions} positions: struct fields and tuple-variant payloads of {:?}) and tap_to_pay's Receipt.email typed with the export type of {:?} as the app's only reference to that crate; the field marked #[serde(skip)] with the type T, Option<T>, Vec<T> and std::rc::Rc<T> (not serialisable, no definition anywhere: a generator that walks it has nothing to render); plus every reachable struct of the app crate with ALL its fields skipped ({all_skipped_structs} structs); identity and reversed numbering", chosen, remotes),
+            "oracle": "the container's entry is the unperturbed one without the field (a container or variant left without serialised fields may have either wire-equivalent style); T and everything reachable only through the field are absent; the dependent crate is not loaded; registry closed; every other entry unchanged",
+            "serde_traces_a_struct_whose_fields_are_all_skipped_as": serde_all_skipped(),
+            "serde_rule": "a field with #[serde(skip)] is neither written nor read and is not part of the traced schema (measured for variants in variant_shapes.what_serde_does: a newtype variant whose field is skipped is a unit variant)",
+        },
+        "fieldless_struct_as_field_type": {
+            "bound": "a new struct Marker without fields (struct Marker; / struct Marker(); / struct Marker {}), not a root, reachable only through tap_to_pay's Receipt.email (struct field) or PaymentStatus::Failed.0 (variant payload) typed Marker, Option<Marker>, Vec<Marker>; identity and reversed numbering",
+            "serde_traces": {"struct Marker;": serde_fieldless("unit"), "struct Marker();": serde_fieldless("tuple-0"), "struct Marker {}": serde_fieldless("braced-0")},
+            "oracle": "Marker has an entry (serde's style or UNITSTRUCT, identical bytes), the field renders the expression around TYPENAME Marker, registry closed, nothing else moved",
+            "result": by_flavour.get("fieldless-struct-as-field-type").map(|(r, ok)| json!({"runs": r, "registry_as_expected": ok})),
+        },
         "local_positions": local_positions,
         "descriptions_with_positions": per_description.iter().map(|(d, p)| (d.clone(), json!(p.len()))).collect::<serde_json::Map<_, _>>(),
         "altered_descriptions_checked": n_checked,
@@ -667,6 +1287,20 @@ pub fn replay(fx: &Fixtures, case: &Case) -> i32 {
             println!("  loaded {:?}, {} containers", o.loaded, o.registry.as_object().map_or(0, |m| m.len()));
             if te.probe.is_some() {
                 println!("  probe of an unsupported constructor: recorded as a note only");
+            } else if te.skipped {
+                match expected_skipped(fx, &base, te) {
+                    Some(x) => {
+                        println!("  expected entry {}: {}", x.container_name, x.registries[0][&x.container_name]);
+                        println!("  observed entry {}: {}", x.container_name, o.registry.get(&x.container_name).map_or("<absent>".into(), |v| v.to_string()));
+                        println!("  entries that must be absent: {:?}", x.gone);
+                        println!("step 3: oracles");
+                        for (class, what) in judge_skipped(&x, &o.registry, &o.loaded) {
+                            bad = true;
+                            println!("  [type-expr/{class}] {what}");
+                        }
+                    }
+                    None => println!("  expectation not derivable"),
+                }
             } else if let Some(x) = expected(fx, &base, te) {
                 println!("  expected entry {}: {}", x.container_name, x.registry[&x.container_name]);
                 println!("  observed entry {}: {}", x.container_name, o.registry.get(&x.container_name).map_or("<absent>".into(), |v| v.to_string()));
